@@ -412,8 +412,14 @@ switchpos:
 		case token.AndNot:
 			return bval &^ v, nil
 		case token.Shl:
+			if v < 0 {
+				return nil, newNegativeShiftError(tok, int64(v))
+			}
 			return bval << v, nil
 		case token.Shr:
+			if v < 0 {
+				return nil, newNegativeShiftError(tok, int64(v))
+			}
 			return bval >> v, nil
 		case token.Less:
 			return Bool(bval < v), nil
